@@ -58,8 +58,9 @@ def c01(run: Any) -> list[Finding]:
             if excused:
                 continue
             # classify for the fingerprint: where is the state, who skipped the producer
-            holders = sorted(w for w, store in run.own.items() if store.get(key) is True)
-            in_shared = run.shared.get(key) is True
+            holders = need.get("holders_now", [])
+            in_shared = need.get("shared_now", False)
+            in_flight = [p["worker"] for p in run.trace[: ev["idx"]] if p["kind"] == "start" and key in p["sets"] and status_at(p, ev["idx"]) == "RUNNING"]
             produced_here = [p["worker"] for p in run.trace[: ev["idx"]] if p["kind"] == "start" and key in p["sets"] and status_at(p, ev["idx"]) in trav.SAVING]
             removed = [d for d in run.trace[: ev["idx"]] if d["kind"] == "door" and d["action"] == "unset" and any((r[0], r[1]) == key for r in d["requests"])]
             incompat = any(n.is_flat() and len(n.incompatible_workers) > 0 for n in run.graph.nodes)
@@ -72,6 +73,8 @@ def c01(run: Any) -> list[Finding]:
                 cause = "state only in another worker's own pool (left by a previous run): the holder skipped the producer after its scan, this worker skipped it as finished"
             elif in_shared:
                 cause = "state in the shared pool but the shared pool is not permitted/instructed"
+            elif in_flight:
+                cause = "its producer is still running on another worker" if ev["worker"] not in in_flight else "its producer is still running"
             else:
                 cause = "state exists nowhere and its producer was not attempted"
             fp = f"C01 cause={cause}"
